@@ -186,12 +186,15 @@ impl Cell {
         let back_b = lab::sa(ip, 9001);
         let back_dead = lab::sa(ip, 9009);
         let back_tcp = lab::sa(ip, 9100);
+        let back_h2c = lab::sa(ip, 9002);
         let ctl = Arc::new(BackendCtl::default());
         let mut backends = Vec::new();
         for addr in [back_a, back_b] {
             let c = ctl.clone();
             backends.push(BackendServer::start(addr, IoProgram::fast(), move |s, _| backend::h1_handler(&c, s)).map_err(|e| format!("backend {addr}: {e}"))?);
         }
+        let c = ctl.clone();
+        backends.push(BackendServer::start(back_h2c, IoProgram::fast(), move |s, _| backend::h2c_handler(&c, s)).map_err(|e| format!("backend {back_h2c}: {e}"))?);
         let c = ctl.clone();
         backends.push(BackendServer::start(back_tcp, IoProgram::fast(), move |s, _| backend::tcp_handler(&c, s)).map_err(|e| format!("backend {back_tcp}: {e}"))?);
 
@@ -231,12 +234,16 @@ impl Cell {
             && w.add_cluster(cluster("a", cfg.cluster_a_per_ip))
             && w.add_cluster(cluster("b", None))
             && w.add_cluster(cluster("refuse", None))
+            && w.add_cluster(Cluster { cluster_id: "h2c".into(), http2: Some(true), ..Default::default() })
+            && w.add_http_frontend(Worker::http_frontend("h2c", front, "h2c.test", "/"))
+            && w.add_https_frontend(Worker::http_frontend("h2c", front_tls, "h2c.test", "/"))
+            && w.add_backend("h2c", "h0", back_h2c)
             && w.add_cluster(cluster("tcp", cfg.tcp_per_ip))
             && w.add_cluster(cluster("tcpdead", None))
             && w.add_http_frontend(Worker::http_frontend("a", front, "a.test", "/"))
             && w.add_http_frontend(Worker::http_frontend("b", front, "b.test", "/"))
             && w.add_http_frontend(Worker::http_frontend("refuse", front, "refuse.test", "/"))
-            && w.add_certificate(front_tls, &cert, vec![], &key, vec!["a.test".into(), "b.test".into(), "refuse.test".into()])
+            && w.add_certificate(front_tls, &cert, vec![], &key, vec!["a.test".into(), "b.test".into(), "refuse.test".into(), "h2c.test".into()])
             && w.add_https_frontend(Worker::http_frontend("a", front_tls, "a.test", "/"))
             && w.add_https_frontend(Worker::http_frontend("b", front_tls, "b.test", "/"))
             && w.add_https_frontend(Worker::http_frontend("refuse", front_tls, "refuse.test", "/"))
@@ -688,7 +695,18 @@ pub fn check_conservation(cc: &mut CaseCtx, cell: &mut Cell, base: &Foot, class:
             for (field, exp, obs) in f.deviations(base) {
                 // below the value before the mix: something was released that this mix never took
                 // (only visible when an earlier leak left the counter above its floor of 0)
-                let signature = if obs > exp { format!("resources/leak/{field}/{class}") } else { format!("resources/over_release/{field}") };
+                // one stable signature for the connection count an h2c backend keeps when the buffer
+                // pool is exhausted while its client connection is being set up (whatever class ran)
+                let only_h2c = field == "backend_active_connections"
+                    && cell.cfg.max_buffers < 100
+                    && s.backends.iter().all(|b| b.cluster_id == "h2c" || b.active_connections == 0);
+                let signature = if obs > exp && only_h2c {
+                    "resources/leak/backend_active_connections/h2c_backend_pool_exhausted".to_owned()
+                } else if obs > exp {
+                    format!("resources/leak/{field}/{class}")
+                } else {
+                    format!("resources/over_release/{field}")
+                };
                 rep.violation(
                     &signature,
                     &format!("{field} = {obs} (value before the mix: {exp}) after every peer socket was closed and no session is left that a timeout could still end, or every timeout + 7.5 s elapsed"),
@@ -819,6 +837,16 @@ fn one_mix(cc: &mut CaseCtx, cell: &mut Cell, plan: &MixPlan, mix_id: u64, rep: 
     }
     let mut sessions = 0;
     for ((cl, tag), n) in &stats.tags {
+        let base = cl.strip_prefix("tls_").unwrap_or(cl);
+        if matches!(base, "backend_close_before_response" | "backend_close_mid_response" | "backend_rst_before_response" | "backend_rst_mid_response") && tag.starts_with("status_5") | tag.starts_with("status_200_truncated") | tag.ends_with("_no_response") {
+            rep.obs("backend_killed_with_requests_in_flight:h1_backend", *n);
+        }
+        if *tag == "h2c_backend_killed_in_flight" {
+            rep.obs("backend_killed_with_requests_in_flight:h2c_backend", *n);
+        }
+        if *tag == "h2_front_backends_killed_in_flight" {
+            rep.obs("backend_killed_with_requests_in_flight:h2_frontend", *n);
+        }
         if cl.starts_with("h2_") {
             rep.obs("h2_sessions", *n);
         }
@@ -1093,6 +1121,9 @@ pub fn run(ctx: &Ctx) -> Report {
         "timer_multi_revolution_pending_at_drain",
         "timer_wakeup_checks",
         "timer_reset_bursts",
+        "backend_killed_with_requests_in_flight:h1_backend",
+        "backend_killed_with_requests_in_flight:h2c_backend",
+        "backend_killed_with_requests_in_flight:h2_frontend",
         "per_ip_mixed_cluster_disable_checks",
         "result:h2_rst_stream_then_completed",
         "result:h2_dropped_with_open_streams",
